@@ -171,10 +171,22 @@ impl NodeDrive {
                         // The key is not part of the new files, its disk address is no longer
                         // valid: forget the tombstone so a later snapshot does not write through it
                         let mut map = db.map.write().unwrap();
-                        if let Some(current) = map.get(&key) {
-                            if current.state == ValueStatus::Deleted {
+                        let still_deleted = map.get(&key).map(|c| c.state == ValueStatus::Deleted);
+                        match still_deleted {
+                            Some(true) => {
                                 map.remove(&key);
                             }
+                            Some(false) => {
+                                // Written again since this snapshot took its copy: the entry still
+                                // carries the tombstone's addresses in the old files, and it is not
+                                // part of the new ones. It is a new key for the next snapshot
+                                if let Some(current) = map.get_mut(&key) {
+                                    current.state = ValueStatus::New;
+                                    current.value_disk_addr = 0;
+                                    current.key_disk_addr = 0;
+                                }
+                            }
+                            None => {}
                         }
                     }
                 }
